@@ -87,7 +87,8 @@ def reference(spec, nums, r, st):
     st: t, pos[list per element], speed[list], T_load_motor, T_load_first"""
     q = GEN.qsi
     m = spec['motor']
-    Tmax, w0, i0, imax = q(m['Tmax']), q(m['w0']), q(m['i0']), q(m['imax'])
+    Tmax, w0 = q(m['Tmax']), q(m['w0'])
+    i0, imax = (q(m['i0']), q(m['imax'])) if m.get('i0') is not None else (None, None)
     if r['type'] == 'const':
         start, dur = q(r['start']), q(r['dur'])
         active, near = RR.constant_pwm_window(st['t'], start, dur)
